@@ -65,8 +65,9 @@ struct C03 : public Driver {
         SSCfg sc; auto allowed = featuresExcept({}); sc.on = pickFeatures(g, allowed, 3, 9);
         if (dc.manyNames) { sc.on.insert("num-nocount"); sc.on.insert("num-any"); }
         if (dc.bigNum) { sc.on.insert("bigfmt"); sc.on.insert("valnum"); }
+        if (g.chance(1, 3)) sc.on.insert("padsupp");
         { static const std::vector<std::string> langs = { "de", "fr", "en" }; static const std::vector<std::string> cases = { "", "upper-first", "lower-first" }; sc.sortLang = g.pick(langs); sc.sortCase = g.pick(cases); }
-        sc.useImport = g.chance(1, 3); sc.useInclude = g.chance(1, 4); sc.docFn = g.chance(1, 3); sc.stripSpace = g.chance(1, 4);
+        sc.useImport = g.chance(1, 3); sc.useInclude = g.chance(1, 4); sc.docFn = g.chance(1, 3); sc.stripSpace = g.chance(1, 4); sc.dupExtPrefix = g.chance(1, 6);
         static const std::vector<std::string> encs = { "UTF-8", "UTF-8", "UTF-16", "ISO-8859-1", "US-ASCII", "windows-1252" };
         sc.encoding = g.pick(encs); sc.cdataElems = g.chance(1, 6);
         static const std::vector<std::string> orders = { "doc", "rk", "rev" }; sc.order = g.pick(orders);
